@@ -400,6 +400,10 @@ func (x *Exec) havocLoop(s *State, f *ssa.Function, body map[*ssa.BasicBlock]boo
 				for _, k := range x.keysOfAddr(in.Addr) {
 					keys[k] = true
 				}
+			case *ssa.Next:
+				if rg, isRange := in.Iter.(*ssa.Range); isRange && in.IsString {
+					keys[x.rangeKey(rg)] = true
+				}
 			case *ssa.MapUpdate:
 				mk := "M:" + typeStr(in.Map.Type())
 				keys[mk+":has"], keys[mk+":val"], keys[mk+":size"] = true, true, true
@@ -422,6 +426,11 @@ func (x *Exec) havocLoop(s *State, f *ssa.Function, body map[*ssa.BasicBlock]boo
 					keys[k] = true
 				}
 			}
+		}
+	}
+	for k := range keys {
+		if strings.HasPrefix(k, "R:") {
+			x.havocKey(s, k) // a range iterator advanced in the body (calls never touch it)
 		}
 	}
 	if all {
@@ -896,6 +905,9 @@ func (x *Exec) execInstr(s *State, in ssa.Instruction) {
 		x.sliceOp(s, in)
 	case *ssa.Range:
 		fr.env[in] = Val{K: vRange, Parts: []Val{x.valueOf(s, in.X)}, Typ: in.X.Type()}
+		if isString(in.X.Type()) {
+			x.heapSet(s, x.rangeKey(in), x.ilit(0)) // byte offset of the next rune
+		}
 	case *ssa.Next:
 		x.next(s, in)
 	default:
@@ -914,10 +926,31 @@ func (x *Exec) next(s *State, in *ssa.Next) {
 	kv := x.freshVal(s, "next.k", tup.At(1).Type())
 	vv := x.freshVal(s, "next.v", tup.At(2).Type())
 	if in.IsString && it.K == vRange {
+		// range over a string: the iterator stands at byte offset p; a round delivers (p, the rune
+		// that starts there) and advances by the width of its encoding (1..4 bytes, 1 for a byte
+		// below 0x80, whose rune is that byte)
 		str := it.Parts[0].T
 		l := x.strLen(s, str)
 		s.assume(Implies(ok, And(x.le(x.ilit(0), kv.T), x.lt(kv.T, l))))
-		s.assume(Implies(Not(Eq(str, T{"str.empty", SStr})), TTrue))
+		if rg, isRange := in.Iter.(*ssa.Range); isRange {
+			key := x.rangeKey(rg)
+			p := x.heapSym(s, key, x.intSort())
+			s.assume(And(x.le(x.ilit(0), p), x.le(p, l)))
+			s.assume(mk(SBool, "=", ok, x.lt(p, l)))
+			s.assume(Implies(ok, Eq(kv.T, p)))
+			w := x.fresh(s, "next.width", x.intSort())
+			b := mk(x.byteSort(), "str.at_", str, p)
+			var isASCII, sameRune T
+			if x.mode == "int" {
+				isASCII = And(x.le(x.ilit(0), b), x.lt(b, x.ilit(128)))
+				sameRune = Eq(vv.T, b)
+			} else {
+				isASCII = mk(SBool, "bvult", b, BVLit(128, 8))
+				sameRune = Eq(vv.T, mk(SBV32, "(_ zero_extend 24)", b))
+			}
+			s.assume(Implies(ok, And(x.le(x.ilit(1), w), x.le(w, x.ilit(4)), x.le(x.add(p, w), l), Implies(isASCII, And(Eq(w, x.ilit(1)), sameRune)))))
+			x.heapSet(s, key, Ite(ok, x.add(p, w), p))
+		}
 	}
 	fr.env[in] = Val{K: vTuple, Parts: []Val{scalar(ok), kv, vv}}
 }
@@ -1447,4 +1480,9 @@ func (x *Exec) strSub(s *State, str, lo, hi T) T {
 	s.assume(mk(SBool, "=", Eq(lo, hi), Eq(r, T{"str.empty", SStr})))
 	s.assume(Implies(And(Eq(lo, x.ilit(0)), Eq(hi, l)), Eq(r, str)))
 	return r
+}
+
+// rangeKey: the state key holding the byte offset of a range-over-string iterator.
+func (x *Exec) rangeKey(rg *ssa.Range) string {
+	return "R:" + x.p.Names[rg.Parent()] + ":" + rg.Name()
 }
